@@ -650,6 +650,13 @@ class XrPlugin:
             return NotImplemented
         i = st.deref(idx)
         dims = o.fields["dims"]
+        if isinstance(i, str):
+            # data_array["coordinate name"]: the coordinate as a DataArray (KeyError otherwise)
+            if i in o.fields["coords"]:
+                c = o.fields["coords"][i]
+                return mk_xa(st, (i,), c, None, {i: c})
+            from ..interp import PyRaise
+            raise PyRaise(ExcVal("KeyError", (i,)))
         if isinstance(i, dict):
             return st.alloc(xa_isel(interp, st, o, i), "DataArray")
         if isinstance(i, tuple):
@@ -748,6 +755,15 @@ class XrPlugin:
     def _ds_getattr(self, interp, st, ref, o, name):
         if name == "coords":
             return st.alloc(dict(o.fields["coords"]), "coords")
+        if name == "dims":
+            # Dataset.dims: mapping dimension name -> length (over the data variables, in order of first appearance)
+            sizes = {}
+            for v in o.fields["vars"].values():
+                x = st.deref(v)
+                if is_xa(x):
+                    for d, n in zip(x.fields["dims"], x.fields["arr"].shape):
+                        sizes.setdefault(d, n)
+            return st.alloc(sizes, "dims")
         if name in ("keys",):
             return LibFunc("Dataset.keys", lambda i, s, a, k: s.alloc(list(o.fields["vars"]), "list"))
         if name == "__getitem__":
